@@ -300,6 +300,68 @@ static void op_rs(void)
 	free(pat);
 }
 
+/* op c11 mflags pat nlines line...: compile pat both ways, match every line under the 4 NOTBOL/NOTEOL
+ * combinations and validate the returned offsets here.  output: made_rset made_rstr nfound nbad firstbad-code */
+static int c11_check(char *line, int found, int *g, int ng)
+{
+	int len = strlen(line), i;
+	if (!found)
+		return 0;
+	for (i = 0; i < ng; i++) {
+		int so = g[2 * i], eo = g[2 * i + 1];
+		if (so == -1 && eo == -1 && i > 0)
+			continue;
+		if (so < 0 || eo < so || eo > len)
+			return 10 + (i > 9 ? 9 : i);
+		if ((((unsigned char) line[so]) & 0xc0) == 0x80 || (((unsigned char) line[eo]) & 0xc0) == 0x80)
+			return 30 + (i > 9 ? 9 : i);
+	}
+	return 0;
+}
+
+static void op_c11(void)
+{
+	int mflags = atoi(args[1]);
+	char *pat = unhex(args[2]);
+	int nl = atoi(args[3]), i, f, nfound = 0, nbad = 0, first = 0;
+	char *pp = pat;
+	struct rset *re = rset_make(1, &pp, mflags);
+	struct rstr *rs = rstr_make(pat, mflags);
+	for (i = 0; i < nl; i++) {
+		char *line = unhex(args[4 + i]);
+		for (f = 0; f < 4; f++) {
+			int g[24], j, r, gfl = (f & 1 ? RE_NOTBOL : 0) | (f & 2 ? RE_NOTEOL : 0);
+			if (re) {
+				for (j = 0; j < 24; j++)
+					g[j] = -7;
+				r = rset_find(re, line, 12, g, gfl);
+				nfound += r >= 0;
+				j = c11_check(line, r >= 0, g, 12);
+				if (j && !first)
+					first = 100 + j;
+				nbad += j != 0;
+			}
+			if (rs) {
+				for (j = 0; j < 24; j++)
+					g[j] = -7;
+				r = rstr_find(rs, line, 12, g, gfl);
+				nfound += r >= 0;
+				j = c11_check(line, r >= 0, g, 12);
+				if (j && !first)
+					first = 200 + j;
+				nbad += j != 0;
+			}
+		}
+		free(line);
+	}
+	printf("%d %d %d %d %d\n", re != NULL, rs != NULL, nfound, nbad, first);
+	if (re)
+		rset_free(re);
+	if (rs)
+		rstr_free(rs);
+	free(pat);
+}
+
 static void op_ndept(void)
 {
 	printf("%d\n", re_verif_ndept());
@@ -324,6 +386,7 @@ int main(void)
 		else if (!strcmp(args[0], "re")) op_re();
 		else if (!strcmp(args[0], "rs")) op_rs();
 		else if (!strcmp(args[0], "ndept")) op_ndept();
+		else if (!strcmp(args[0], "c11")) op_c11();
 		else if (!strcmp(args[0], "quit")) break;
 		else printf("ERR unknown op\n");
 		fflush(stdout);
